@@ -1,2 +1,3 @@
 //! Materialisers: token lists / logical documents -> real bytes.
 pub mod zipw;
+pub mod ods;
